@@ -190,6 +190,14 @@ func (w *vpC05World) boot() *State {
 	vp.Assert(state.LastBlockHeight == blockStore.Height(), "C05.recover.state-and-block-store-agree-on-height")
 	vp.Assert(state.LastBlockHeight == w.app.height, "C05.recover.state-and-application-agree-on-height")
 	vp.Assert(bytes.Equal(state.AppHash, w.app.hash) || (w.app.height == 0 && len(w.app.hash) == 0), "C05.recover.state-and-application-agree-on-the-app-hash")
+	// what the application answered at the end of block 1 is in the state, whether block 1 was applied
+	// by the normal path or re-applied by the handshake after a crash
+	if w.withUpdates && state.LastBlockHeight >= 1 {
+		vp.Assert(state.ConsensusParams.Block.MaxBytes == 1<<20 && state.LastHeightConsensusParamsChanged == 2,
+			"C05.recover.state-carries-the-parameter-updates-the-application-returned-for-the-block")
+		vp.Assert(state.NextValidators.Validators[0].VotingPower == 11 && state.LastHeightValidatorsChanged == 3,
+			"C05.recover.state-carries-the-validator-updates-the-application-returned-for-the-block")
+	}
 	// C18: whatever the block store still holds, the state store can serve
 	if base := blockStore.Base(); base > 0 {
 		for h := base; h <= blockStore.Height(); h++ {
